@@ -721,6 +721,9 @@ impl ScanSim {
         let mut exhausted = false;
         let mut calls = 0usize;
         let mut buffered_across_calls = false;
+        // every score yielded so far was bit-for-bit the reference value (evidence that the scanner's
+        // notion of "the score" is the library's score_position, see `tie_confirmed` below)
+        let scores_bit_exact = std::cell::Cell::new(true);
         {
             let scanner_r = sut(|| {
                 cpu::with_host(sc.host, || {
@@ -753,6 +756,7 @@ impl ScanSim {
                     if exact || (score as f64 - table.f64s[pos]).abs() > table.tol[pos] {
                         return Some(Violation::new("wrong-score", ctx.tags(ovf_tag), format!("position {}: score {:e} but the definition gives {:e}", pos, score, want)));
                     }
+                    scores_bit_exact.set(false);
                     o.tolerated += 1;
                 }
                 if !(want >= t) {
@@ -862,18 +866,48 @@ impl ScanSim {
             o.probe("hits-returned-across-several-next-calls");
         }
 
+        // A position inside the tolerance band is don't-care because another legitimate summation order
+        // could put its score on the other side of the threshold. That reason does not apply when the
+        // tree's own public definition of the score, ScoringMatrix::score_position, evaluates to the very
+        // value of the reference (>= threshold) AND the scanner demonstrably reports that same function
+        // (it yielded at least one hit in this run, every one of them bit-for-bit the reference value):
+        // then the library contradicts itself by withholding the position.
+        let tie_confirmed = |i: usize, thr: f32, n_seen: usize| -> bool {
+            if n_seen == 0 || !scores_bit_exact.get() {
+                return false;
+            }
+            match sut(|| cpu::with_host(sc.host, || pssm.score_position(&striped, i))) {
+                Ok(v) => v.to_bits() == table.f32s[i].to_bits() && v >= thr,
+                Err(_) => false,
+            }
+        };
+
         // --- history checks ---
         if exhausted && sc.then != Then::Max {
+            let mut tie_checks = 0;
             for &i in &expected {
                 if !seen.contains(&i) {
+                    let mut tie = false;
                     if band(i) {
-                        o.tolerated += 1;
-                        continue;
+                        tie_checks += 1;
+                        if tie_checks > 16 || !tie_confirmed(i, t, seen.len()) {
+                            o.tolerated += 1;
+                            continue;
+                        }
+                        tie = true;
                     }
                     o.violate(Violation::new(
                         "missing-hit",
-                        ctx.tags(ovf_tag),
-                        format!("position {} scores {:e} >= threshold {:e} but was never returned ({} of {} expected hits seen)", i, table.f32s[i], t, seen.len(), expected.len()),
+                        ctx.tags(if tie { "tie" } else { ovf_tag }),
+                        format!(
+                            "position {} scores {:e} >= threshold {:e} but was never returned ({} of {} expected hits seen){}",
+                            i,
+                            table.f32s[i],
+                            t,
+                            seen.len(),
+                            expected.len(),
+                            if tie { "; the score ties with the threshold within rounding, but score_position of this tree gives exactly this value and every returned hit carried score_position's value" } else { "" }
+                        ),
                     ));
                     return;
                 }
@@ -893,6 +927,18 @@ impl ScanSim {
             let best = u.iter().map(|&i| table.f32s[i]).fold(f32::NEG_INFINITY, f32::max);
             match r {
                 None => {
+                    if !exhausted && u_strict.is_empty() {
+                        // only ties remain: strict when the library's own score confirms them (see tie_confirmed)
+                        if let Some(&i) = u.iter().take(16).find(|&&i| tie_confirmed(i, t, seen.len())) {
+                            o.violate(Violation::new(
+                                "max-none-but-hits-remain",
+                                ctx.tags("tie"),
+                                format!("max() returned None but position {} scores {:e} >= threshold {:e} by score_position of this tree, the function whose values the {} hits returned before carried ({} unconsumed hits)", i, table.f32s[i], t, seen.len(), u.len()),
+                            ));
+                            return;
+                        }
+                        o.tolerated += u.len() as u64;
+                    }
                     if !exhausted && !u_strict.is_empty() {
                         // also allowed: nothing at all (U empty); otherwise a hit was lost
                         let i = *u_strict.iter().max_by(|a, b| table.f32s[**a].partial_cmp(&table.f32s[**b]).unwrap()).unwrap();
